@@ -133,7 +133,9 @@ mod verif_c11_recver {
                 assert!(r.rcvbuf.largest_offset() <= m0 && r.largest <= m0, "C11.recver.recv.buffered_data_within_stream_limit");
                 // amount reported upwards (charged to the connection window) == growth of the highest data offset
                 assert!(fresh as u64 == r.rcvbuf.largest_offset() - bl0, "C11.recver.recv.fresh_is_growth_of_largest_offset");
-                assert!(fresh as u64 <= len, "C11.recver.recv.fresh_at_most_frame_length");
+                // (fresh may exceed the frame length: a frame beyond a gap consumes the gap's credit as well -
+                //  flow control is accounted by highest offset, RFC 9000 4.1)
+                assert!(bl0 + fresh as u64 <= m0, "C11.recver.recv.total_charged_within_stream_limit");
                 assert!(r.largest == if end > l0 { end } else { l0 }, "C11.recver.recv.largest_tracks_highest_end");
                 assert!(r.rcvbuf.largest_offset() <= r.largest, "C11.recver.recv.sup.invariant_buf_largest_le_largest");
                 kani::cover!(fresh > 0, "C11.recver.recv.reach_fresh");
@@ -145,8 +147,10 @@ mod verif_c11_recver {
         core::mem::forget(r);
     }
 
-    fn incoming_in_recv_state(r: Recv<Sink>) -> Incoming<Sink> {
-        Incoming::new(ArcRecver(Arc::new(Mutex::new(Ok(Recver::Recv(r))))))
+    /// the protocol-side handle plus a second handle to look at the state afterwards
+    fn incoming_in_state(st: Recver<Sink>) -> (Incoming<Sink>, ArcRecver<Sink>) {
+        let arc = ArcRecver(Arc::new(Mutex::new(Ok(st))));
+        (Incoming::new(arc.clone()), arc)
     }
 
     /// `Incoming::recv_data` in state Recv, every STREAM frame (with and without FIN), OUTSIDE the bad region
@@ -167,9 +171,9 @@ mod verif_c11_recver {
         let end = f.offset() + body.len() as u64;
         let fin = f.is_fin();
         kani::assume(!(fin && end > m0)); // KNOWN bad region, see fin_path_flow_control_finding
-        let inc = incoming_in_recv_state(r);
+        let (inc, arc) = incoming_in_state(Recver::Recv(r));
         let res = inc.recv_data(f, body);
-        let g = inc.0.recver();
+        let g = arc.recver();
         match res {
             Err(e) => {
                 if end > m0 {
@@ -208,6 +212,7 @@ mod verif_c11_recver {
         kani::cover!(!fin && end > m0, "C11.recver.recv_data.reach_violation");
         drop(g);
         core::mem::forget(inc);
+        core::mem::forget(arc);
     }
 
     /// FINDING (confined): a STREAM frame carrying FIN whose end lies beyond the advertised MAX_STREAM_DATA.
@@ -227,8 +232,9 @@ mod verif_c11_recver {
         let m0 = r.max_stream_data;
         let end = f.offset() + body.len() as u64;
         kani::assume(end > m0);
-        let inc = incoming_in_recv_state(r);
+        let (inc, arc) = incoming_in_state(Recver::Recv(r));
         let res = inc.recv_data(f, body);
+        core::mem::forget(arc);
         let ok = matches!(&res, Err(e) if e.kind() == ErrorKind::FlowControl);
         core::mem::forget(res);
         core::mem::forget(inc);
@@ -353,19 +359,21 @@ mod verif_c11_recver {
     #[kani::stub(std::fmt::format, stub_format)]
     fn incoming_recv_reset_contract() {
         let known: bool = kani::any();
-        let (inc, sid, lower_bound, expect_eq) = if known {
+        let (st, sid, lower_bound, expect_eq) = if known {
             let s = any_size_known();
             let (sid, fs) = (s.stream_id, s.final_size);
-            (Incoming::new(ArcRecver(Arc::new(Mutex::new(Ok(Recver::SizeKnown(s)))))), sid, fs, true)
+            (Recver::SizeKnown(s), sid, fs, true)
         } else {
             let r = any_recv();
+            // bad region of Recv::recv_reset (final size beyond the stream limit) is pinned separately
             let (sid, l) = (r.stream_id, r.largest);
-            (incoming_in_recv_state(r), sid, l, false)
+            (Recver::Recv(r), sid, l, false)
         };
+        let (inc, arc) = incoming_in_state(st);
         let f = any_reset(sid);
         let fs = f.final_size();
         let res = inc.recv_reset(f);
-        let g = inc.0.recver();
+        let g = arc.recver();
         let contradicts = if expect_eq { fs != lower_bound } else { fs < lower_bound };
         assert!(res.is_err() == contradicts, "C12.recver.incoming.recv_reset.err_iff_final_size_contradicted");
         match res {
@@ -374,7 +382,11 @@ mod verif_c11_recver {
                 assert!(!matches!(g.as_ref().ok().unwrap(), Recver::ResetRcvd(_)), "C12.recver.incoming.recv_reset.refused_reset_not_applied");
             }
             Ok(credit) => {
-                assert!(matches!(g.as_ref().ok().unwrap(), Recver::ResetRcvd(x) if *x == f), "C12.recver.incoming.recv_reset.enters_reset_rcvd");
+                let entered = match g.as_ref().ok().unwrap() {
+                    Recver::ResetRcvd(x) => x.clone() == f,
+                    _ => false,
+                };
+                assert!(entered, "C12.recver.incoming.recv_reset.enters_reset_rcvd");
                 assert!(credit as u64 == if known { 0 } else { fs - lower_bound }, "C11.recver.incoming.recv_reset.credit_is_uncharged_part_of_final_size");
             }
         }
@@ -382,6 +394,7 @@ mod verif_c11_recver {
         kani::cover!(!known && contradicts, "C12.recver.incoming.recv_reset.reach_unknown_violation");
         drop(g);
         core::mem::forget(inc);
+        core::mem::forget(arc);
     }
 
     /// window update on read: `Recv::poll_read` / `Recv::poll_next` (C11: the advertised stream limit never
